@@ -18,6 +18,8 @@ package main
 
 import (
 	"bytes"
+	"crypto/sha256"
+	"encoding/hex"
 	"encoding/json"
 	"go/ast"
 	"go/parser"
@@ -48,6 +50,7 @@ func loadBaseFuncs(path string) {
 		return
 	}
 	baseFuncs = map[string]bool{}
+	baseHash = m
 	for k := range m {
 		baseFuncs[k] = true
 	}
@@ -194,9 +197,14 @@ func expandCall(p *pkgInfo, self string, s ast.Stmt) string {
 	}
 	var b strings.Builder
 	b.WriteString("{\n")
+	subst := map[string]string{} // parameter -> argument text, for arguments that are plain references
 	bind := func(pn string, a ast.Expr) {
 		at := printNode(a)
 		if pn == "_" || pn == at {
+			return
+		}
+		if simpleRef(a) && !assignedIn(h.Body, pn) {
+			subst[pn] = at
 			return
 		}
 		b.WriteString(pn + " := " + at + "\n")
@@ -214,6 +222,30 @@ func expandCall(p *pkgInfo, self string, s ast.Stmt) string {
 		return ""
 	}
 	body := hf.Decls[0].(*ast.FuncDecl).Body
+	if len(subst) > 0 {
+		// a parameter bound to a plain reference is replaced by that reference (the generators look for `switch actuals[6]`, not for
+		// `switch s` under `s := actuals[6]`); field names of selectors and keys of composite literals are left alone
+		skip := map[*ast.Ident]bool{}
+		ast.Inspect(body, func(n ast.Node) bool {
+			switch x := n.(type) {
+			case *ast.SelectorExpr:
+				skip[x.Sel] = true
+			case *ast.KeyValueExpr:
+				if id, ok := x.Key.(*ast.Ident); ok {
+					skip[id] = true
+				}
+			}
+			return true
+		})
+		ast.Inspect(body, func(n ast.Node) bool {
+			if id, ok := n.(*ast.Ident); ok && !skip[id] {
+				if t, ok := subst[id.Name]; ok {
+					id.Name = t
+				}
+			}
+			return true
+		})
+	}
 	var lhsText []string
 	for _, l := range lhs {
 		lhsText = append(lhsText, printNode(l))
@@ -405,3 +437,195 @@ func sourceOf(fd *ast.FuncDecl) (string, token.Pos) {
 }
 
 var inlinedSrc = map[*token.File][]byte{}
+
+// simpleRef: an argument that can stand wherever the parameter stood: identifier, selector chain, index by a literal or identifier, literal
+func simpleRef(e ast.Expr) bool {
+	switch x := e.(type) {
+	case *ast.Ident, *ast.BasicLit:
+		return true
+	case *ast.SelectorExpr:
+		return simpleRef(x.X)
+	case *ast.IndexExpr:
+		return simpleRef(x.X) && simpleRef(x.Index)
+	case *ast.ParenExpr:
+		return simpleRef(x.X)
+	}
+	return false
+}
+
+// assignedIn: is the name assigned, incremented or its address taken somewhere in the body?
+func assignedIn(body *ast.BlockStmt, name string) bool {
+	found := false
+	ast.Inspect(body, func(n ast.Node) bool {
+		switch x := n.(type) {
+		case *ast.AssignStmt:
+			for _, l := range x.Lhs {
+				if id, ok := l.(*ast.Ident); ok && id.Name == name {
+					found = true
+				}
+			}
+		case *ast.IncDecStmt:
+			if id, ok := x.X.(*ast.Ident); ok && id.Name == name {
+				found = true
+			}
+		case *ast.UnaryExpr:
+			if id, ok := x.X.(*ast.Ident); ok && x.Op == token.AND && id.Name == name {
+				found = true
+			}
+		case *ast.RangeStmt:
+			for _, e := range []ast.Expr{x.Key, x.Value} {
+				if id, ok := e.(*ast.Ident); ok && id.Name == name {
+					found = true
+				}
+			}
+		}
+		return true
+	})
+	return found
+}
+
+// ---- if-chains as switches ---------------------------------------------------------------------
+// `if X == a {..} else if X == b {..} else {..}` is how a `switch X` is sometimes rewritten (and the other way round).  The generators
+// read switches; in a function whose text differs from the recorded base, a chain whose first two or more conditions compare ONE
+// expression with constants is presented as the switch it stands for (the rest of the chain becomes the default clause).
+
+func eqTest(e ast.Expr) (tag, val ast.Expr, ok bool) {
+	if p, isP := e.(*ast.ParenExpr); isP {
+		return eqTest(p.X)
+	}
+	b, isB := e.(*ast.BinaryExpr)
+	if !isB || b.Op != token.EQL {
+		return nil, nil, false
+	}
+	return b.X, b.Y, true
+}
+
+func chainToSwitch(s *ast.IfStmt) ast.Stmt {
+	var tagText string
+	var tag ast.Expr
+	var clauses []ast.Stmt
+	cur := s
+	var rest ast.Stmt
+	for {
+		if cur.Init != nil {
+			rest = cur
+			break
+		}
+		x, y, ok := eqTest(cur.Cond)
+		if !ok {
+			rest = cur
+			break
+		}
+		xt, yt := printNode(x), printNode(y)
+		var val ast.Expr
+		switch {
+		case tag == nil:
+			// the tag is decided by the second condition; remember both readings of the first
+			tag, tagText, val = x, xt, y
+		case xt == tagText:
+			val = y
+		case yt == tagText:
+			val = x
+		default:
+			val = nil
+		}
+		if val == nil {
+			rest = cur
+			break
+		}
+		clauses = append(clauses, &ast.CaseClause{List: []ast.Expr{val}, Body: cur.Body.List})
+		if cur.Else == nil {
+			break
+		}
+		if next, ok := cur.Else.(*ast.IfStmt); ok {
+			cur = next
+			continue
+		}
+		rest = cur.Else
+		break
+	}
+	if len(clauses) < 2 {
+		return s
+	}
+	if rest != nil {
+		var body []ast.Stmt
+		if blk, ok := rest.(*ast.BlockStmt); ok {
+			body = blk.List
+		} else {
+			body = []ast.Stmt{rest}
+		}
+		clauses = append(clauses, &ast.CaseClause{Body: body})
+	}
+	return &ast.SwitchStmt{Tag: tag, Body: &ast.BlockStmt{List: clauses}}
+}
+
+func rewriteChains(list []ast.Stmt) {
+	for i, st := range list {
+		if is, ok := st.(*ast.IfStmt); ok {
+			list[i] = chainToSwitch(is)
+		}
+		ast.Inspect(list[i], func(n ast.Node) bool {
+			switch x := n.(type) {
+			case *ast.BlockStmt:
+				if n != list[i] {
+					rewriteChains(x.List)
+					return false
+				}
+			case *ast.CaseClause:
+				rewriteChains(x.Body)
+				return false
+			case *ast.CommClause:
+				rewriteChains(x.Body)
+				return false
+			}
+			return true
+		})
+		if blk, ok := list[i].(*ast.BlockStmt); ok {
+			rewriteChains(blk.List)
+		}
+	}
+}
+
+// funcChanged: does the declaration's text differ from the one recorded for the base tree (unknown base: false)?
+func funcChanged(rel string, fd *ast.FuncDecl) bool {
+	if baseHash == nil {
+		return false
+	}
+	key := rel + ":"
+	if fd.Recv != nil && len(fd.Recv.List) > 0 {
+		key += recvName(fd.Recv.List[0].Type) + "."
+	}
+	var buf bytes.Buffer
+	_ = printer.Fprint(&buf, token.NewFileSet(), fd)
+	h := sha256.Sum256(buf.Bytes())
+	return baseHash[key+fd.Name.Name] != hex.EncodeToString(h[:8])
+}
+
+var baseHash map[string]string
+
+// normaliseChanged: for a function that differs from the base, if-chains presented as switches
+func normaliseChanged(rel string, orig, fd *ast.FuncDecl) *ast.FuncDecl {
+	if fd == nil || fd.Body == nil || os.Getenv("GOEXTRACT_NOINLINE") != "" || !funcChanged(rel, orig) {
+		return fd
+	}
+	src := "package p\n" + printNode(fd)
+	f, err := parser.ParseFile(token.NewFileSet(), "", src, 0)
+	if err != nil || len(f.Decls) != 1 {
+		return fd
+	}
+	c := f.Decls[0].(*ast.FuncDecl)
+	before := printNode(c)
+	rewriteChains(c.Body.List)
+	after := printNode(c)
+	if after == before {
+		return fd
+	}
+	text := "package p\n" + after
+	nf, err := parser.ParseFile(fset, rel+"(normalised)", text, 0)
+	if err != nil || len(nf.Decls) != 1 {
+		return fd
+	}
+	nfd := nf.Decls[0].(*ast.FuncDecl)
+	inlinedSrc[fset.File(nfd.Pos())] = []byte(text)
+	return nfd
+}
